@@ -69,6 +69,10 @@ class Sys(e2.DevSys):
 
     def actions(self):
         acts = []
+        if self.cfg.get("late_watch"):
+            for fi in range(5):
+                if fi not in self.cfg["watched"] and fi not in [e[3] for e in self.events if e[2] == "watch"]:
+                    acts.append(("watch", fi))
         for i in range(len(self.svcs)):
             for ttl in self.cfg["offer_ttls"]:
                 acts.append(("offer", i, ttl))
@@ -76,6 +80,12 @@ class Sys(e2.DevSys):
         return acts
 
     def do(self, act):
+        if act[0] == "watch":
+            # a filter added while the find task is running: it is searched from the next round on
+            f = filters(self.s, self.s2)[act[1]]
+            self.events.append((self.loop.time(), self.cur[1], "watch", act[1], 0))
+            self.prot.discovery.watch_service(cfg_.Service(*f), ClientRec(f"LW{act[1]}", self.log, self.loop))
+            return
         self.session += 1
         svc = self.svcs[act[1]]
         ttl = act[2] if act[0] == "offer" else 0
@@ -90,13 +100,17 @@ class Sys(e2.DevSys):
         an expiry at exactly T has already happened."""
         r = self.loop._clock_resolution
         live = {}
+        watched = list(self.watched)
         for t, pos, kind, i, ttl in self.events:
             before = t < T - r or abs(t - T) < r
             if not before:
                 continue
+            if kind == "watch":
+                watched.append(filters(self.s, self.s2)[i])
+                continue
             svc = self.svcs[i]
-            if not any(fmatch(f, svc) for f in self.watched):
-                continue  # offers nobody watches are not stored
+            if not any(fmatch(f, svc) for f in watched):
+                continue  # offers nobody watches (yet) are not stored
             if kind == "stopoffer":
                 live.pop(i, None)
             else:
@@ -112,7 +126,10 @@ class Sys(e2.DevSys):
             if T > horizon:
                 break
             live = self.live_at(T)
-            ents = sorted(f for f in self.watched if not any(fmatch(f, self.svcs[i]) for i in live))
+            r_ = self.loop._clock_resolution
+            watched = list(self.watched) + [filters(self.s, self.s2)[e[3]] for e in self.events
+                                            if e[2] == "watch" and (e[0] < T - r_ or abs(e[0] - T) < r_)]
+            ents = sorted(f for f in watched if not any(fmatch(f, self.svcs[i]) for i in live))
             if not ents:
                 break  # everything found at a round instant: the task ends for good
             want.append((T, ents))
@@ -161,12 +178,28 @@ def cfgs(ctx):
         if base == 1.0 and reps > 3:
             continue
         out.append(dict(sids=(s, s2), window=window, frac=frac, reps=reps, base=base, watched=watched,
-                        find_ttl=7 + ctx.seed % 5, offer_ttls=(1, 3)))
+                        find_ttl=7 + ctx.seed % 5, offer_ttls=(1, 3),
+                        late_watch=(len(watched) == 1 and reps == 3 and frac == 0.0)))
     return out
+
+
+def reoffer_triple(cfg, devs, p, k):
+    """offer(i, ttl 1), stop-offer(i), offer(i, ttl 3) within one second: a timer that survives the stop-offer
+    would remove the second offer"""
+    return (k == 3 and cfg["base"] == 1.0 and cfg["reps"] == 3 and cfg["frac"] == 0.0 and cfg["window"] != (0.0, 0.0)
+            and len(cfg["watched"]) == 1 and devs[0][2] == ("offer", devs[0][2][1], 1)
+            and devs[1][2] == ("stopoffer", devs[0][2][1]) and p[2] == ("offer", devs[0][2][1], 3)
+            and p[0] - devs[0][0] < 1.0 and devs[0][1] == devs[1][1] == p[1] == "pre")
 
 
 def restrict(thorough, cfg, devs, p, k):
     if k <= 1:
+        return True
+    if reoffer_triple(cfg, devs, p, k):
+        return True
+    if k == 2 and cfg["base"] == 1.0 and cfg["reps"] == 3 and cfg["frac"] == 0.0 and cfg["window"] != (0.0, 0.0) \
+            and len(cfg["watched"]) == 1 and devs[0][2][0] == "offer" and devs[0][2][2] == 1 \
+            and p[2] == ("stopoffer", devs[0][2][1]) and p[0] - devs[0][0] < 1.0 and devs[0][1] == p[1] == "pre":
         return True
     if k == 2:
         if thorough:
@@ -181,7 +214,7 @@ def restrict(thorough, cfg, devs, p, k):
 
 def check(ctx):
     allc = cfgs(ctx)
-    res, viols = e2.search(ctx, Sys, allc, 3 if ctx.thorough else 2, restrict=functools.partial(restrict, ctx.thorough))
+    res, viols = e2.search(ctx, Sys, allc, 3, restrict=functools.partial(restrict, ctx.thorough))
     samples = core.Samples()
     samples.add(dict(cfg=allc[0], devs=[]), "default schedule")
     samples.add(dict(cfg=allc[-1], devs=[[1.25, "pre", ["offer", 0, 1]], [2.25, "post", ["offer", 2, 3]]]),
